@@ -143,6 +143,7 @@ func copyFile(src, dst string) error {
 }
 
 func (s *rangeState) exec(c *ctx, op string) string {
+	c.pre(op)
 	f := strings.Fields(op)
 	switch f[0] {
 	case "rsetup":
